@@ -49,8 +49,10 @@ func init() {
 			"extractPadding on every payload of length <= 2, on (length 1..300) x (last byte 0..255) x {constant fill, one mismatch inside / just outside the padding} and random payloads; " +
 			"halfConn.encrypt and decrypt for null/stream/CBC(1.0 implicit IV, >=1.1 explicit IV)/prefix-nonce AEAD/xor-nonce AEAD (1.2 and 1.3) over random keys, sequence numbers, types, payload sizes incl. 0 and 2^14, " +
 			"decrypt on valid, single-byte-mutated, truncated, extended, wrong-sequence, bad-padding, zero-padded (1.3) and too-short records; maxPayloadSizeForWrite over all branches; " +
-			"writeRecordLocked fragmentation (sizes, wire bytes); readRecordOrCCS length/version checks. A case is one distinct input line. " +
-			"T3: decrypt(encrypt p) = p at the same sequence number, mutated record => error or identical plaintext, extractPadding = naive reference, fragments concatenate to the input and are <= 2^14; " +
+			"writeRecordLocked fragmentation (sizes, wire bytes); readRecordOrCCS length/version checks; " +
+			"readx: the full readRecordOrCCS (both values of expectChangeCipherSpec, pending cipher, preloaded handshake data, several calls) over a scripted transport (bytewise, 512-byte blocks, record by record, header/body cuts, one cut, straddling, random, with zero-byte reads, data+EOF) on multi-record streams with ignorable records, close_notify / fatal alerts, cuts, flips, dropped / duplicated / swapped records, the retry limit (14..18 ignorable records), cipher changes (good, bad body, no pending cipher, unexpected, handshake data pending), TLS 1.3 CCS / alert / interleaving rules, every header check, plaintext-size limits: result class incl. the alert, alert on the wire, sequence number, retryCount, read-ahead; " +
+			"writex: writeRecordLocked with a pending cipher (switch, failed switch + sticky out error) and Conn.Write with the TLS 1.0 1/n-1 split on/off. A case is one distinct input line. " +
+			"T3: decrypt(encrypt p) = p at the same sequence number, mutated record => error or identical plaintext, extractPadding = naive reference, fragments concatenate to the input and are <= 2^14; readx: same result with the canonical segmentation of the same bytes, error alert = alert on the wire, error stored; writex: a reader following the cipher change decrypts every write to the written bytes, first record of a split Write carries one byte; " +
 			"real.go (T3 only): real handshakes for every negotiating (version, suite) pair (coverage of a required minimum set is itself checked); bidirectional transfers with random write-size profiles, read buffers and transport segmentation (delivered = written, per-record plaintext <= 2^14, ciphertext within the suite's expansion bound); single and multiple wire faults on protected records (flip, drop, dup, swap, trunc, replay, cut, garbage, zero, setlen, ccs, CBC block substitution): delivered bytes are a prefix of the written ones followed by a sticky error; " +
 			"real_seg.go (T3 only): UNMODIFIED wire handed to the reader by a scripted transport that uses what io.Reader / net.Conn allow: one cut at every kind of position of the last record / last data record (header bytes 1..4, after the header, inside the body, last byte; thorough: every offset), every record split the same way, byte-by-byte, record-by-record, random sizes, everything in one read, the last bytes together with io.EOF or a separate EOF, close_notify in the same segment as the last data or no close_notify at all, zero-byte reads, a read deadline firing with or without data at any cut (the reader clears it and reads on): delivered = written, then a sticky io.EOF, no stale timeout, one Read per record, no transport read at a record boundary while received plaintext is undelivered; the live xfer transport also reports its end together with the last bytes"})
 }
